@@ -216,10 +216,15 @@ func checkSeqBytes(c *Ctx, x []byte, cast bool) *Violation {
 			return &Violation{"C15.t3-seq-partial-map", fmt.Sprintf("NewMapXmlSeq(%q) returned err=%v together with a Map %s", clip(string(x), 200), err, clip(Canon(m), 200))}
 		}
 	}
-	if !preceded && refXMLAccepts(x) && rawOK {
-		c.C["probe.t3_seq_accepted"]++
-		if err != nil || m == nil {
-			return &Violation{"C15.t3-seq-rejects-valid", fmt.Sprintf("encoding/xml accepts %q (no comment/directive/PI before the root) but NewMapXmlSeq returned err=%v", clip(string(x), 200), err)}
+	if !preceded {
+		if refXMLAccepts(x) && rawOK {
+			c.C["probe.t3_seq_accepted"]++
+			if err != nil || m == nil {
+				return &Violation{"C15.t3-seq-rejects-valid", fmt.Sprintf("encoding/xml accepts %q (no comment/directive/PI before the root) but NewMapXmlSeq returned err=%v", clip(string(x), 200), err)}
+			}
+		} else if err == nil {
+			// the strict tokenizer (end tags must match, no EOF inside an element) rejects the first document
+			return &Violation{"C15.t3-seq-accepts-invalid", fmt.Sprintf("encoding/xml rejects the first document of %q but NewMapXmlSeq returned no error (map=%s)", clip(string(x), 200), clip(Canon(asIface(m)), 200))}
 		}
 	}
 	if err != nil && err != mxj.NoRoot && m != nil {
@@ -572,12 +577,23 @@ func runC15Gob(c *Ctx) *Violation {
 // This clause has no schedule or fault dimension: it is seeded input generation
 // run inside the same harness and counted separately (probe.t5_*).
 
-var pathSegs = []string{"a", "b", "k", "name", "list", "*", "", "-id", "#text", "x y", "a[0]", "b[1]", "list[2]", "*[0]", "a[-1]", "a[99999999999]", "a[", "a]", "a[x]", "[0]", "a[0", "a[]", "a[0][1]", "é", "a[1]x"}
+var pathSegs = []string{"a", "b", "k", "name", "list", "*", "", "-id", "#text", "x y", "a[0]", "b[1]", "list[2]", "*[0]", "a[-1]", "a[99999999999]", "a[", "a]", "a[x]", "[0]", "a[0", "a[]", "a[0][1]", "é", "a[1]x", "a]1[", "]a[0]", "][", "]0["}
 var subKeys = []string{"a:v", "k:1", ":x", "x:", "!a:v", "!:x", "a:*", "!a:*", "a:1:num", "a:true:bool", "a:v:string", "a:b:c:d", "a", "", ":", "!", "a:x:float", "a:t:boolean", "-id:1", "k|v", "a:v:bogus", "::", "!:", "*:*"}
 var newVals = []string{"a:v", "k:2:num", "a:true:bool", ":x", "x", "a:b:c:d", "", ":", "a:z:bogus", "k:notnum:num", "#text:t"}
 var keyPairs = []string{"a:b", "a", "a:b.c", "list:l.m", "*:x", "a:*", "a:b[0]", ":", "a:", ":b", "a:b:c", "", "a.b:c.d", "list[0]:z", "a[-1]:q", "k:a.b.c.", "name:a", "a:a.b"}
 
+const pathAlphabet = "ab[]01-.*:x]["
+
 func drawPath(t *Tape) string {
+	if t.Draw(4) == 3 {
+		// bracket/separator garbage
+		n := 1 + t.Small(9)
+		b := make([]byte, n)
+		for i := range b {
+			b[i] = pathAlphabet[t.Draw(len(pathAlphabet))]
+		}
+		return string(b)
+	}
 	n := 1 + t.Small(4)
 	segs := make([]string, n)
 	for i := range segs {
